@@ -7,7 +7,8 @@ export GOFLAGS=-mod=mod GOPROXY=off GOSUMDB=off GOTOOLCHAIN=local
 cd "$WT" || exit 2
 git checkout -q --detach main 2>/dev/null; git checkout -q -- . 
 DEMO=$(python3 -c "import json;print(json.load(open('$SD/meta.json'))['demo_path'])")
-DFILE=$(ls $SD/*_test.go $SD/*.go 2>/dev/null | grep -v go.mod | head -1)
+DFILE=$(find $SD -name '*.go' | head -1)
+DREL=${DFILE#$SD/}
 RUN=$(python3 -c "
 import json,re
 m=json.load(open('$SD/meta.json'))
@@ -15,13 +16,13 @@ c=m['demo_cmd']
 print(c)")
 mv $WT/seed_1 /tmp/wt/.hold_seed_1_$$ 2>/dev/null; mv $WT/seed_2 /tmp/wt/.hold_seed_2_$$ 2>/dev/null
 SDH=/tmp/wt/.hold_$(basename $SD)_$$
-cp "$SDH/$(basename $DFILE)" "$WT/$DEMO"
+cp "$SDH/$DREL" "$WT/$DEMO"
 echo "== clean tree demo"; (cd $WT && eval "$RUN" 2>&1 | tail -3)
 CLEAN=$?
-git apply "$SDH/patch.diff" || { echo "PATCH DOES NOT APPLY"; }
+git apply "$SDH/patch.diff" 2>/dev/null || git apply --3way "$SDH/patch.diff" || { echo "PATCH DOES NOT APPLY"; }
 echo "== build+suite with patch"; go build ./... 2>&1 | tail -3; rm -f "$WT/$DEMO"; go test -vet=off -count=1 ./... 2>&1 | grep -v "no test files" | grep -v "^ok" | tail -5; echo "suite rc=$?"
-cp "$SDH/$(basename $DFILE)" "$WT/$DEMO"
+cp "$SDH/$DREL" "$WT/$DEMO"
 echo "== patched tree demo"; (cd $WT && eval "$RUN" 2>&1 | tail -4)
-rm -f "$WT/$DEMO"; git checkout -q -- .
+rm -f "$WT/$DEMO"; git reset -q; git checkout -q -- .
 mv /tmp/wt/.hold_seed_1_$$ $WT/seed_1 2>/dev/null; mv /tmp/wt/.hold_seed_2_$$ $WT/seed_2 2>/dev/null
 git status --short | head -5
